@@ -343,7 +343,8 @@ let spec_name_line (msg : byte list) (p : int) : string =
 let dispatch (op : string) (a : string array) : string =
   match op with
   | "name" -> op_name (unhex a.(0)) (int_of_string a.(1))
-  | "script" -> op_script a
+  | "script" | "ascript" -> op_script a
+  | "aiter" -> "-"
   | "text" -> op_text (unhex a.(0))
   | "textpair" -> op_textpair (unhex a.(0)) (unhex a.(1))
   | "wname" -> op_wname (unhex a.(0)) (int_of_string a.(1))
